@@ -123,6 +123,11 @@ def main():
                 raise ValueError("CharFunctor%s table has %d entries, s_lastSpecial says %d" % (ver, len(vals), size))
             vals += [0] * (size - len(vals))      # missing trailing initialisers are zero (eNone) in C++
             tables[ver] = vals
+        ftt = strip_comments(open(os.path.join(XMLS, "FormatterToText.cpp"), encoding="utf-8", errors="replace").read())
+        ftt_chars = norm(body_of(ftt, "characters"))
+        if "chars[i]>m_maxCharacter" not in ftt_chars:
+            raise ValueError("FormatterToText::characters no longer tests chars[i] > m_maxCharacter")
+        text_reports = "canTranscodeTo(" in ftt_chars and "UnrepresentableCharacterException(" in ftt_chars
         if "m_indentHandler" not in src:
             raise ValueError("FormatterToXMLUnicode.hpp no longer has an m_indentHandler member")
         cps = [(f, calls_of(body_of(src, f))) for f in FNS]
@@ -163,6 +168,8 @@ def main():
     out.append("def classEnum : List (String × Nat) := [%s]" % ", ".join('("%s", %d)' % (k, enum[k]) for k in ["eNone", "eAttr", "eBoth", "eForb", "eCRFb"]))
     out.append("def charTable10 : List Nat := [%s]" % ", ".join(map(str, tables["1_0"])))
     out.append("def charTable11 : List Nat := [%s]" % ", ".join(map(str, tables["1_1"])))
+    out.append("/-- FormatterToText::characters asks the stream whether a character can be transcoded and raises UnrepresentableCharacterException -/")
+    out.append("def textReportsUnrepresentable : Bool := %s" % str(text_reports).lower())
     out.append("end XalanModel.Generated.C08")
     txt = "\n".join(out) + "\n"
     os.makedirs(common.GEN, exist_ok=True)
